@@ -130,6 +130,7 @@ func scenario(s *scen) *vsched.Scenario {
 	sc.Idle = world.IsIdlePoint
 	sc.Horizon = 60 * time.Minute
 	sc.DelayBounding = true
+	sc.TimerDeviations = true // one timer may fire although threads are still busy (a slow extraction, a loaded machine)
 	sc.AtStep = func(x *vsched.Exec) error {
 		if len(w.Log) > 120 {
 			return fmt.Errorf("unbounded-work: %d requests for one seed and still going", len(w.Log))
@@ -219,7 +220,7 @@ func main() {
 		ss = f
 	}
 	res := hkit.Jobs(a, len(ss), func(j int) any {
-		rep := vsched.Explore(scenario(&ss[j]), vsched.Bounds{P: ss[j].P, MaxWall: 5 * time.Minute})
+		rep := vsched.Explore(scenario(&ss[j]), vsched.Bounds{P: ss[j].P, F: 1, MaxWall: 5 * time.Minute})
 		if len(rep.Sample) > 40 {
 			rep.Sample = rep.Sample[:40]
 		}
